@@ -313,8 +313,9 @@ func (g *vfGamma) requestParts(r *vfRecipe) (string, []vfHdr, []byte) {
 	X := g.extHeaders()
 	body := g.body()
 	V, RT, R := g.lines("Via", g.join(vias, r.Vlay)), g.lines("Route", g.join(rts, r.Rlay)), g.lines("Record-Route", g.join(rrs, r.Rrlay))
-	F := []vfHdr{{g.name("From"), g.pick("<sip:a@a.example>;tag=ft", "\"A\" <sip:a@a.example>;tag=ft", "sip:a@a.example;tag=ft", "<sip:Alice@A.Example.COM>;tag=ft", "<sips:a@GW-1.Example.org:5071;x=Y>;tag=Ft")}}
-	T := []vfHdr{{g.name("To"), g.pick("<sip:b@"+tohost+">", "B <sip:b@"+tohost+">", "sip:b@"+tohost)}}
+	F := []vfHdr{{g.name("From"), g.pick("<sip:a@a.example>;tag=ft", "\"A\" <sip:a@a.example>;tag=ft", "sip:a@a.example;tag=ft", "<sip:Alice@A.Example.COM>;tag=ft", "<sips:a@GW-1.Example.org:5071;x=Y>;tag=Ft",
+		"<sip:a@a.example>; tag=ft", "<sip:a@a.example> ; tag = ft ;x= 1", "<sip:a@a.example>;note=\"a; b\";tag=ft", "\"A; B\"  <sip:a@a.example>;tag=ft;lr ; y")}}
+	T := []vfHdr{{g.name("To"), g.pick("<sip:b@"+tohost+">", "B <sip:b@"+tohost+">", "sip:b@"+tohost, "<sip:b@"+tohost+">; x = 1", "<sip:b@"+tohost+"> ;y")}}
 	if g.decor == 1 && g.rnd.Intn(3) == 0 {
 		// an in-dialog request: both tags present (the proxy computes the dialog identity for it)
 		T[0].v = "<sip:b@" + tohost + ">;tag=tT-1"
@@ -362,7 +363,6 @@ func (g *vfGamma) lines(canon string, vals []string) []vfHdr {
 	}
 	return hs
 }
-
 
 // interleave merges the header blocks in a random order at LINE level while keeping the relative order
 // of the lines of each block (the order inside a Via / Route / Record-Route stack is meaningful)
@@ -452,8 +452,8 @@ func (g *vfGamma) responseParts(r *vfRecipe) (string, []vfHdr, []byte) {
 	X := g.extHeaders()
 	body := g.body()
 	V, R := g.lines("Via", g.join(st, r.Vlay)), g.lines("Record-Route", g.join(rrs, r.Rrlay))
-	F := []vfHdr{{g.name("From"), g.pick("<sip:a@a.example>;tag=ft", "<sip:Alice@A.Example.COM>;tag=ft", "\"A\" <sips:a@GW-1.Example.org:5071;x=Y>;tag=Ft")}}
-	T := []vfHdr{{g.name("To"), g.pick("<sip:b@e.x>;tag=tt", "<sip:Bob@B.Example.NET>;tag=tt", "<tel:+1555;phone-context=X.Example>;tag=Tt")}}
+	F := []vfHdr{{g.name("From"), g.pick("<sip:a@a.example>;tag=ft", "<sip:Alice@A.Example.COM>;tag=ft", "\"A\" <sips:a@GW-1.Example.org:5071;x=Y>;tag=Ft", "<sip:a@a.example>; tag=ft", "<sip:a@a.example> ; x= 1; tag = ft")}}
+	T := []vfHdr{{g.name("To"), g.pick("<sip:b@e.x>;tag=tt", "<sip:Bob@B.Example.NET>;tag=tt", "<tel:+1555;phone-context=X.Example>;tag=Tt", "<sip:b@e.x>; tag=tt", "<sip:b@e.x> ;tag = tt ; q=\"a; b\"")}}
 	M := []vfHdr{{g.name("Max-Forwards"), "70"}}
 	CL := vfHdr{g.name("Content-Length"), fmt.Sprint(len(body))}
 	C := []vfHdr{{g.name("Call-ID"), "cid1@" + g.base}, {g.name("CSeq"), "1 INVITE"}, CL}
@@ -491,6 +491,7 @@ func (g *vfGamma) responseParts(r *vfRecipe) (string, []vfHdr, []byte) {
 // ------------------------------------------------------------ the run
 
 type vfProxyRun struct {
+	nlearn   int
 	t        *testing.T
 	tr       *vfTrace
 	g        *vfGamma
@@ -697,12 +698,42 @@ func (pr *vfProxyRun) step(id, cls string, b *vfBench, pi, ti int, srcIP string,
 
 func (pr *vfProxyRun) learnSteps(id string, b *vfBench, rc *vfRecipe) {
 	g := pr.g
+	pr.nlearn++
+	layout := pr.nlearn % 5
 	mk := func(viaHosts ...string) []byte {
-		var hs []vfHdr
-		for i, h := range viaHosts {
-			hs = append(hs, vfHdr{"Via", fmt.Sprintf("SIP/2.0/UDP %s;branch=z9hG4bKl%d", h, i)})
+		// the hosts a request lists in its Via entries are learnt whatever the layout of the Via stack: one entry per
+		// line, comma-joined, compact name, other headers between the Via lines, Via lines at the end of the header
+		var hs, vias []vfHdr
+		name := "Via"
+		if layout == 2 {
+			name = "v"
 		}
-		hs = append(hs, vfHdr{"From", "<sip:l@l.example>;tag=l"}, vfHdr{"To", "<sip:nobody@z.z>"}, vfHdr{"Call-ID", "learn"}, vfHdr{"CSeq", "1 OPTIONS"}, vfHdr{"Content-Length", "0"})
+		var ents []string
+		for i, h := range viaHosts {
+			ents = append(ents, fmt.Sprintf("SIP/2.0/UDP %s;branch=z9hG4bKl%d", h, i))
+		}
+		if layout == 1 {
+			vias = []vfHdr{{name, strings.Join(ents, ", ")}}
+		} else {
+			for _, e := range ents {
+				vias = append(vias, vfHdr{name, e})
+			}
+		}
+		rest := []vfHdr{{"Max-Forwards", "70"}, {"From", "<sip:l@l.example>;tag=l"}, {"To", "<sip:nobody@z.z>"}, {"Call-ID", "learn"}, {"CSeq", "1 OPTIONS"}, {"Content-Length", "0"}}
+		switch layout {
+		case 3: // other headers between the Via lines
+			for i, v := range vias {
+				hs = append(hs, v, rest[i%2])
+			}
+			hs = append(hs, rest[2:]...)
+			if len(vias) < 2 {
+				hs = append(hs, rest[1])
+			}
+		case 4: // Via lines last
+			hs = append(append(hs, rest...), vias...)
+		default:
+			hs = append(append(hs, vias...), rest...)
+		}
 		return vfRender("OPTIONS sip:nobody@nowhere.example SIP/2.0", hs, nil)
 	}
 	switch rc.Rc.Learn {
